@@ -82,6 +82,7 @@ def main():
         for k, v in res['counts']['labels'].items():
             labels[k] = labels.get(k, 0) + v
         ck.bump('unconstructible', res['counts']['unconstructible'])
+        ck.bump('stored_pristine_observations', res['counts'].get('stored', 0))
         for r in res['recs']:
             lab = r.pop('label')
             if r['pv'].startswith('other') or r['wv'].startswith('other'):
